@@ -94,71 +94,78 @@ def l_radix():
             ("step", [w > 0, 0 <= t1, t1 < w, 0 <= t2, t2 < w, c1 * w + t1 == c2 * w + t2], z3.And(c1 == c2, t1 == t2))]
 
 
-# ---- step functions written from the property statement ("skip nulls; the first accepted value replaces the neutral start") ---------
-def pick(better):
-    return lambda a_, v, c: (z3.If(isn(v), a_, z3.If(c == 0, v, z3.If(better(v, a_), v, a_))), z3.If(isn(v), c, c + 1))
-fadd = lambda x, y: z3.If(z3.Or(isn(x), isn(y)), F.NaN, F.Fin(F.val(x) + F.val(y)))
-STEPS = {"nanmin": pick(lambda v, a_: flt(v, a_)), "nanmax": pick(lambda v, a_: flt(a_, v)), "first": pick(lambda v, a_: z3.BoolVal(False)),
-         "nansum": lambda a_, v, c: (z3.If(isn(v), a_, z3.If(c == 0, v, fadd(a_, v))), z3.If(isn(v), c, c + 1)),
-         "last": lambda a_, v, c: (z3.If(isn(v), a_, v), z3.If(isn(v), c, c + 1))}
-a1, a2, v = z3.Consts("a1 a2 v", F); cc1, cc2 = z3.Ints("cc1 cc2")
-# representation invariant of a partial result: the accumulator is the null start iff nothing has been accepted
-rep = {"nanmin": lambda x, c: z3.And(c >= 0, (c == 0) == isn(x)), "nanmax": lambda x, c: z3.And(c >= 0, (c == 0) == isn(x)),
-       "first": lambda x, c: z3.And(c >= 0, (c == 0) == isn(x)), "last": lambda x, c: z3.And(c >= 0, (c == 0) == isn(x)),
-       "nansum": lambda x, c: z3.And(c >= 0, z3.Not(isn(x)), z3.Implies(c == 0, x == F.Fin(0)))}
+# ---- step functions written from the property statement: ONE definition (contracts/specs.py), also used by the code contracts ScalarFuncs.X == step_X
+from contracts import specs as SPEC
+_S = SPEC.steps("float")
+STEPS = {nm: (lambda a_, v, c, fa=fa, fc=fc: (fa(a_, v, c), fc(a_, v, c))) for nm, (fa, fc) in _S.items()}
+fadd = SPEC.ALG["float"]["add"]
+# ---- merge laws, per value algebra (float: NaN null; int: -2^63 null, i.e. temporal values; bool: no null at all) ----------------------------------------
+# A partial result of a block is (acc, count). What the combine step computes for two partials (reduce_array_pair with counts = left count, y_counts = right count):
+#     Merge((a1, c1), (a2, c2)) = (a1, c1) if c2 == 0 else (step(a1, a2, c1).acc, c1 + c2)
+# Representation invariant Rep of a partial built by folding `step` from the start value: count >= 0, and for the selecting reducers a positive count means the
+# accumulator is a real (non-null) value. Nothing is assumed about the accumulator of an EMPTY partial: for bool / unsigned types it is not a null.
+def _kind_env(kind):
+    srt = {"float": F, "int": I, "bool": B}[kind]; S = SPEC.steps(kind); nul = SPEC.ALG[kind]["isnull"]
+    st = {nm: (lambda a_, v_, c_, fa=fa, fc=fc: (fa(a_, v_, c_), fc(a_, v_, c_))) for nm, (fa, fc) in S.items()}
+    return srt, st, nul
+def rep_of(kind, nm):
+    _, _, nul = _kind_env(kind)
+    if nm in ("nanmin", "nanmax", "first"): return lambda x, c: z3.And(c >= 0, z3.Implies(c > 0, z3.Not(nul(x))))
+    # `last`: the count counts rows. For algebras with a null the start value IS the null (empty partial => null accumulator); bool has no null and no null values
+    if nm == "last": return (lambda x, c: c >= 0) if kind == "bool" else (lambda x, c: z3.And(c >= 0, z3.Implies(c == 0, nul(x))))
+    if nm in ("nansum", "nansum_squares"): return lambda x, c: c >= 0
+    raise KeyError(nm)
+def merge_of(kind, nm):
+    """what combine_chunk_results_for_factorized_key computes per group: sums (and counts) are merged with the non-skipping `sum`, everything else with itself"""
+    _, st, _ = _kind_env(kind); f = st["sum" if "sum" in nm else nm]
+    return lambda x1, k1, x2, k2: (z3.If(k2 == 0, x1, f(x1, x2, k1)[0]), k1 + k2)
+REDUCERS = {"float": ("nanmin", "nanmax", "first", "last", "nansum"), "int": ("nanmin", "nanmax", "first", "last", "nansum"), "bool": ("nanmin", "nanmax", "first", "last")}
 
 
-def merge_of(nm):
-    """what the combine step computes for two partials (acc, count): reducer(acc1, acc2, count1) and count1 + count2"""
-    f = STEPS[nm]
-    return lambda x1, k1, x2, k2: (f(x1, x2, k1)[0], k1 + k2)
-
-
-@lemma("L-merge-step", ("C03", "C04"))
+@lemma("L-merge-step", ("C03", "C04", "C12"))
 def l_merge_step():
-    "Merge(s1, step(s2, v)) == step(Merge(s1, s2), v) and Rep is preserved, with the accumulated count passed to the reducer"
+    "Merge(s1, step(s2, v)) == step(Merge(s1, s2), v); Rep is preserved by step and by Merge; merging with an empty partial on either side is the identity"
     out = []
-    for nm in ("nanmin", "nanmax", "first", "nansum"):
-        f = STEPS[nm]; merge = merge_of(nm); rp = rep[nm]
-        s2 = f(a2, v, cc2); lhs = merge(a1, cc1, s2[0], s2[1]); mm = merge(a1, cc1, a2, cc2); rhs = f(mm[0], v, mm[1])
-        out.append((f"step[{nm}]", [rp(a1, cc1), rp(a2, cc2)], z3.And(lhs[0] == rhs[0], lhs[1] == rhs[1])))
-        out.append((f"rep-merge[{nm}]", [rp(a1, cc1), rp(a2, cc2)], rp(*merge(a1, cc1, a2, cc2))))
-        out.append((f"rep-step[{nm}]", [rp(a2, cc2)], rp(*f(a2, v, cc2))))
-        empty = (F.NaN if nm != "nansum" else F.Fin(0), z3.IntVal(0))
-        out.append((f"identity-right[{nm}]", [rp(a1, cc1)], z3.And(merge(a1, cc1, *empty)[0] == a1, merge(a1, cc1, *empty)[1] == cc1)))
-        out.append((f"identity-left[{nm}]", [rp(a2, cc2)], z3.And(merge(*empty, a2, cc2)[0] == a2, merge(*empty, a2, cc2)[1] == cc2)))
-    # `last`: the merge keeps the right partial unless it is empty
-    f = STEPS["last"]; rp = rep["last"]
-    mergel = lambda x1, k1, x2, k2: (f(x1, x2, k1)[0], k1 + k2)
-    s2 = f(a2, v, cc2); lhs = mergel(a1, cc1, s2[0], s2[1]); mm = mergel(a1, cc1, a2, cc2); rhs = f(mm[0], v, mm[1])
-    out.append(("step[last]", [rp(a1, cc1), rp(a2, cc2)], z3.And(lhs[0] == rhs[0], lhs[1] == rhs[1])))
+    for kind, names in REDUCERS.items():
+        srt, st, nul = _kind_env(kind); a1, a2, v = z3.Consts(f"a1_{kind} a2_{kind} v_{kind}", srt); cc1, cc2 = z3.Ints("cc1 cc2")
+        for nm in names:
+            f = st[nm]; merge = merge_of(kind, nm); rp = rep_of(kind, nm)
+            s2 = f(a2, v, cc2); lhs = merge(a1, cc1, s2[0], s2[1]); mm = merge(a1, cc1, a2, cc2); rhs = f(mm[0], v, mm[1])
+            hyps = [rp(a1, cc1), rp(a2, cc2)]
+            out.append((f"step[{kind},{nm}]", hyps, z3.And(lhs[0] == rhs[0], lhs[1] == rhs[1])))
+            out.append((f"rep-merge[{kind},{nm}]", hyps, rp(*merge(a1, cc1, a2, cc2))))
+            out.append((f"rep-step[{kind},{nm}]", [rp(a2, cc2)], rp(*f(a2, v, cc2))))
+            out.append((f"identity-right[{kind},{nm}]", [rp(a1, cc1)], z3.And(merge(a1, cc1, a2, z3.IntVal(0))[0] == a1, merge(a1, cc1, a2, z3.IntVal(0))[1] == cc1)))
+            out.append((f"identity-left[{kind},{nm}]", [rp(a2, cc2), cc2 > 0] + ([z3.Not(nul(a2))] if nm == "last" else []), merge(a1, z3.IntVal(0), a2, cc2)[0] == a2))
     return out
 
 
 # ---- L-merge: fold over the concatenation = merge of the folds (induction on the length of the second block) ----------------------
-# Fold over a value sequence X from a start index: FoldA(s, t), FoldC(s, t) = fold of rows [s, t)
-XS = z3.Function("XS", I, F); s0, t0 = z3.Ints("s0 t0")
+s0, t0 = z3.Ints("s0 t0")
 
 
-@lemma("L-merge", ("C03", "C04"))
+@lemma("L-merge", ("C03", "C04", "C12"))
 def l_merge():
-    "Merge(Fold[0,s), Fold[s,t)) == Fold[0,t) for every s <= t: induction on t from s, the step is L-merge-step"
+    """Merge(Fold[0,s), Fold[s,t)) == Fold[0,t) for every s <= t (fold of rows [s,t) starts from ANY start accumulator with count 0): induction on t from s,
+    the step is L-merge-step. By induction on the number of blocks the left-to-right merge of any number of consecutive block partials is the single-pass fold."""
     out = []
-    for nm in ("nanmin", "nanmax", "first", "nansum"):
-        f = STEPS[nm]; merge = merge_of(nm); rp = rep[nm]
-        FA = z3.Function(f"FA_{nm}", I, I, F); FC = z3.Function(f"FC_{nm}", I, I, I)      # fold of rows [s, t) from the empty partial
-        empty = (F.NaN if nm != "nansum" else F.Fin(0), z3.IntVal(0))
-        fold_def = lambda s, t: z3.And(FA(s, t + 1) == f(FA(s, t), XS(t), FC(s, t))[0], FC(s, t + 1) == f(FA(s, t), XS(t), FC(s, t))[1])
-        fold_0 = lambda s: z3.And(FA(s, s) == empty[0], FC(s, s) == empty[1])
-        P = lambda t: z3.And(merge(FA(0, s0), FC(0, s0), FA(s0, t), FC(s0, t))[0] == FA(0, t), FC(0, s0) + FC(s0, t) == FC(0, t), rp(FA(s0, t), FC(s0, t)), rp(FA(0, t), FC(0, t)))
-        out.append((f"[{nm}] base t=s", [s0 >= 0, fold_0(s0), rp(FA(0, s0), FC(0, s0))], P(s0)))
-        out.append((f"[{nm}] step", [s0 >= 0, t0 >= s0, P(t0), rp(FA(0, s0), FC(0, s0)), fold_def(s0, t0), fold_def(0, t0)], P(t0 + 1)))
-        # Rep of a fold from the empty partial (needed as the hypothesis of the base case): induction on t
-        out.append((f"[{nm}] rep base", [fold_0(0)], rp(FA(0, 0), FC(0, 0))))
-        out.append((f"[{nm}] rep step", [t0 >= 0, rp(FA(0, t0), FC(0, t0)), fold_def(0, t0)], rp(FA(0, t0 + 1), FC(0, t0 + 1))))
+    for kind, names in REDUCERS.items():
+        srt, st, nul = _kind_env(kind); XSk = z3.Function(f"XS_{kind}", I, srt)
+        for nm in names:
+            f = st[nm]; merge = merge_of(kind, nm); rp = rep_of(kind, nm)
+            FA = z3.Function(f"FA_{kind}_{nm}", I, I, srt); FC = z3.Function(f"FC_{kind}_{nm}", I, I, I)      # fold of rows [s, t) from the start partial of a block
+            fold_def = lambda s, t: z3.And(FA(s, t + 1) == f(FA(s, t), XSk(t), FC(s, t))[0], FC(s, t + 1) == f(FA(s, t), XSk(t), FC(s, t))[1])
+            # the start accumulator of a block is unconstrained where the algebra has no null (bool / unsigned start from a real value); count 0
+            fold_0 = lambda s: z3.And(FC(s, s) == 0, rp(FA(s, s), FC(s, s)))
+            P = lambda t: z3.And(merge(FA(0, s0), FC(0, s0), FA(s0, t), FC(s0, t))[0] == FA(0, t), FC(0, s0) + FC(s0, t) == FC(0, t), rp(FA(s0, t), FC(s0, t)), rp(FA(0, t), FC(0, t)))
+            out.append((f"[{kind},{nm}] base t=s", [s0 >= 0, fold_0(s0), rp(FA(0, s0), FC(0, s0))], P(s0)))
+            out.append((f"[{kind},{nm}] step", [s0 >= 0, t0 >= s0, P(t0), rp(FA(0, s0), FC(0, s0)), fold_def(s0, t0), fold_def(0, t0)], P(t0 + 1)))
+            out.append((f"[{kind},{nm}] rep base", [fold_0(0)], rp(FA(0, 0), FC(0, 0))))
+            out.append((f"[{kind},{nm}] rep step", [t0 >= 0, rp(FA(0, t0), FC(0, t0)), fold_def(0, t0)], rp(FA(0, t0 + 1), FC(0, t0 + 1))))
     return out
 
 
+XS = z3.Function("XS", I, F)
 # ---- L-char: the fold of nanmin/nanmax/first/last equals the first-order characterisation ----------------------------
 @lemma("L-char", ("C01", "C04", "C08"))
 def l_char():
